@@ -3,7 +3,8 @@
    preference maps (C12) and their composition into one session; everything else on the paths from the interface
    (clean-up passes, chemistry, intent, XPath evaluation, braille back ends) is decided by the history oracle only. *)
 From MC Require Import Lib.Base Lib.Tree Gen.OpDict Model.ParserCore Model.Parser Model.ParserSpec
-     Proofs.ParserP Proofs.ParserGood Proofs.ParserTotal Model.Prefs Model.Nav Model.Session Proofs.PrefsP Proofs.NavP Proofs.SessionP.
+     Proofs.ParserP Proofs.ParserGood Proofs.ParserTotal Model.Prefs Model.Nav Model.Session Proofs.PrefsP Proofs.NavP Proofs.SessionP
+     Gen.KeyTab Model.KeyPress Proofs.KeyPressP.
 Local Open Scope N_scope.
 
 (* PROGRESS of the shift/reduce machine: under the stack invariant every well-formed decision is carried out -- no
@@ -60,3 +61,23 @@ Theorem recovery_after_any_history : forall udp fl cl ff h s e,
            (mkst [] [] (repeat default_pos MAX_PLACE_MARKERS) (mode (s_nav s1)) (overview (s_nav s1))), AOk).
 Proof. exact L_recovery. Qed.
 Print Assumptions recovery_after_any_history.
+
+(* do_navigate_keypress up to the command it hands on (key table and name table regenerated from src/navigate.rs on every
+   run; an index below its base or past its table, a name lookup that falls into a panic arm are PPanic in the model):
+   for EVERY key code and EVERY combination of Shift, Control, Alt and Meta the key press is refused with an error or
+   stands for a command name -- it never panics ... *)
+Theorem key_press_never_panics : forall k sh ct al me, press k sh ct al me <> PPanic.
+Proof. exact L_press_never_panics. Qed.
+Print Assumptions key_press_never_panics.
+
+(* ... and the name is one the navigation knows (NAV_COMMANDS, regenerated) or the placeholder "Error", which
+   do_navigate_command_string refuses with an error *)
+Theorem key_press_names_a_known_command : forall k sh ct al me s, press k sh ct al me = PCommand s ->
+  s = final_string \/ In s nav_commands.
+Proof. exact L_press_names_a_command. Qed.
+Print Assumptions key_press_names_a_known_command.
+
+(* a key no arm of the table mentions, and any key with Meta, is refused *)
+Theorem unlisted_keys_are_refused : forall k sh ct al me, ~ In k arm_keys -> press k sh ct al me = PErr.
+Proof. exact L_unlisted_key_is_refused. Qed.
+Print Assumptions unlisted_keys_are_refused.
